@@ -12,7 +12,7 @@ CLAIM = {
  "technique": "Lean 4 intertwining theorem for Jordan-Wigner (all sizes) + term-level correspondence + numerical spectrum/CAR oracle for the other encodings"}
 
 RULE = ("(a) every ladder operator and pair product for n = 4 (quick) / 6 under JW, BK, JKMN, both orderings: CAR, products, adjoints; JW term dictionaries vs the model; (b) random molecular-form Hamiltonians on 2-3 spatial orbitals: "
-        "spectra under all six encodings on the represented space, all admissible (n_electrons, spin); (c) operators not touching the top index; non-trivial: operator with >= 2 terms; distinct by hash")
+        "spectra under all six encodings on the represented space, all admissible (n_electrons, spin); written in normal, chemist or annihilator-first order, scaled by 1e-3..1e3 (forced cases every run), with a Zeeman term b*S_z for the full-space encodings and scBK so that a sector and its spin-flipped image differ; (c) operators not touching the top index; non-trivial: operator with >= 2 terms; distinct by hash")
 TRUSTED = ["openfermion transforms (numerically checked)", "numpy.linalg.eigvalsh"]
 ASSUMPTIONS = ["tolerance 1e-7 on eigenvalues (1e-5 for the complex64 combinatorial mapping)"]
 
@@ -102,7 +102,7 @@ def _reordered(op, n, utd):
     return out
 
 
-def spectrum_case(ctx, rng, M):
+def spectrum_case(ctx, rng, M, force_scale=None, force_written=False):
     """random molecular Hamiltonian on M spatial orbitals: spectra under every encoding on the represented space"""
     from tangelo.toolboxes.operators import FermionOperator
     from tangelo.toolboxes.qubit_mappings.combinatorial import combinatorial
@@ -117,9 +117,16 @@ def spectrum_case(ctx, rng, M):
             if all(i < n - 2 for i, _ in t):
                 Hs += FermionOperator(t, c)
         H = Hs if Hs.terms else H
+    scale = 1.0
+    if rng.random() < 0.3 or force_scale:
+        # the whole Hamiltonian in other units (coefficients of order 1e-3 ... 1e-5): the encoding is linear, nothing that
+        # is large compared with the library's absolute 1e-8 cutoff may be dropped
+        scale = force_scale or rng.choice([1e-3, 2e-4])
+        H = H * scale
+    ctx.count(f"spectrum:scale={scale}")
     Hm = fock.fermion_matrix(H, n)
     written = "normal-ordered"
-    if rng.random() < 0.4:
+    if rng.random() < 0.4 or force_written:
         # the same operator written differently: two-body terms in chemist order a+_p a_r a+_q a_s (products of one-body
         # operators / number operators), a+_p a+_q a_r a_s = delta_qr a+_p a_s - a+_p a_r a+_q a_s
         Hw = FermionOperator()
@@ -143,6 +150,16 @@ def spectrum_case(ctx, rng, M):
     full = np.linalg.eigvalsh(Hm)
     case = {"kind": "spectrum", "M": M, "terms": len(H.terms), "written": written, "seed_state": rng.getstate()[1][0]}
     ctx.case(case, nontrivial=True, sample=False)
+    # for the full-space encodings and scBK: a Zeeman term b * S_z on top (Hermitian, number- and spin-conserving, but NOT
+    # symmetric under the exchange of the two spin species: a sector and its spin-flipped image get different spectra)
+    H_sf, Hm_sf = H, Hm
+    if rng.random() < 0.6:
+        b = rng.choice([0.37, -0.81, 1.3]) * scale
+        for p_ in range(M):
+            H = H + FermionOperator(((2 * p_, 1), (2 * p_, 0)), b / 2) + FermionOperator(((2 * p_ + 1, 1), (2 * p_ + 1, 0)), -b / 2)
+        Hm = fock.fermion_matrix(H, n)
+        full = np.linalg.eigvalsh(Hm)
+        ctx.count("spectrum:zeeman-term")
     for utd in (False, True):
         for mapping in ("JW", "BK", "JKMN"):
             q = f2q(H, mapping, n, utd=utd)
@@ -163,6 +180,8 @@ def spectrum_case(ctx, rng, M):
                 if not fock.spectra_equal(np.linalg.eigvalsh(fock.qubit_matrix(q, n - 2)), sec):
                     ctx.violation(f"scBK (n_electrons={n_e}, spin={spin}, up_then_down={utd}): spectrum differs from the (N parity, N_alpha parity) sector", {**case, "n_e": n_e, "spin": spin, "utd": utd})
                     return False
+    # HCB and combinatorial: the spin-free Hamiltonian (their documented domain)
+    H, Hm = H_sf, Hm_sf
     # HCB: seniority-zero space, either ordering option
     paired = [x for x in range(2 ** n) if all(((x >> (2 * p)) & 1) == ((x >> (2 * p + 1)) & 1) for p in range(M))]
     for utd in (False, True):
@@ -171,7 +190,8 @@ def spectrum_case(ctx, rng, M):
         if not fock.spectra_equal(np.linalg.eigvalsh(fock.qubit_matrix(q, M)), np.linalg.eigvalsh(Hm[np.ix_(paired, paired)])):
             ctx.violation(f"HCB (up_then_down={utd}): spectrum differs from the Hamiltonian on the paired-electron (seniority-zero) space (M={M})", case)
             return False
-    # combinatorial: fixed (n_alpha, n_beta)
+    # combinatorial: fixed (n_alpha, n_beta); the tolerance follows the units of the Hamiltonian
+    ctol = 2e-5 * scale + 2e-7
     for na in range(0, M + 1):
         for nb in range(0, M + 1):
             if na + nb == 0 or (na, nb) == (M, M) or rng.random() < 0.5:
@@ -194,13 +214,13 @@ def spectrum_case(ctx, rng, M):
             ok = True
             for e in sec:
                 k = int(np.argmin(np.abs(np.array(rest) - e)))
-                if abs(rest[k] - e) > 2e-5:
+                if abs(rest[k] - e) > ctol:
                     ok = False
                     break
                 rest.pop(k)
             # basis states of the register that encode no configuration only see the constant term of the operator
             const = float(np.real(H.terms.get((), 0.0)))      # the constant of the fermionic operator
-            if not ok or any(min(abs(r), abs(r - const)) > 2e-5 for r in rest):
+            if not ok or any(min(abs(r), abs(r - const)) > ctol for r in rest):
                 ctx.violation(f"combinatorial(n_modes={M}, n_electrons=({na},{nb})): spectrum differs from the fixed-particle-number sector", {**case, "na": na, "nb": nb})
                 return False
     return True
@@ -252,6 +272,10 @@ def run(ctx):
             return
     for i in range(ctx.n(5, 60)):
         if not spectrum_case(ctx, rng, 2 if (ctx.quick or i % 3) else 3):
+            return
+    # every run: other units, and the other written form, at least once each
+    for kw in ({"force_scale": 1e-3}, {"force_scale": 2e-4}, {"force_written": True}, {"force_written": True, "force_scale": 1e-3}):
+        if not spectrum_case(ctx, rng, 2, **kw):
             return
 
 
